@@ -124,6 +124,9 @@ def sym_sequence(rec, scen, on_path=None):
         for c in st.positivity():
             I.assume(c)
         I.summarise = {"ReactionProp", "Poisson"}
+        # conversions of a double to int must stay in range; not asserted where the operand is built from stubbed random draws
+        # (initial-state processing), whose values the stub leaves unbounded
+        I.check_float_cast = (isp == "none")
         if is_sym(named_s["dt"]):
             I.assume(named_s["dt"] > Fraction(1, 8))      # a handful of steps reach t_max
         if "t_sample" in fields and n_req:
